@@ -142,7 +142,7 @@ Proof.
     assert (Hlim : hfold 0 ds < cp_limit) by (rewrite Hv; unfold is_scalar, cp_limit in *; lia).
     destruct (char_hex_loop ds fuel r0 0 rest ltac:(cbn in Hf; lia) Hd Hr Hlim Ha0 (or_intror I) true
                 ltac:(intros ->; contradiction)) as (r2 & E2 & Ha2 & Hk2).
-    rewrite (bind_ok _ _ _ _ _ E2). rewrite Hv, Hs. exists r2. unfold ret. repeat split; auto; congruence.
+    rewrite (bind_ok _ _ _ _ _ E2). unfold open_ended_char. rewrite Hv, Hs. exists r2. unfold ret. repeat split; auto; congruence.
 Qed.
 
 Section CharTokens.
